@@ -921,3 +921,103 @@ func Refs(v ssa.Value) []ssa.Instruction {
 	}
 	return *r
 }
+
+// ---------------------------------------------------------------- backward slices
+
+// SliceBack walks the data dependences of v backwards (operands of pure
+// value instructions and call arguments). visit is called for every value
+// reached; returning false stops the walk along that branch. The walk is
+// intraprocedural and bounded.
+func SliceBack(v ssa.Value, visit func(ssa.Value) bool) {
+	seen := map[ssa.Value]bool{}
+	var rec func(v ssa.Value, d int)
+	rec = func(v ssa.Value, d int) {
+		if v == nil || seen[v] || d > 60 {
+			return
+		}
+		seen[v] = true
+		if !visit(v) {
+			return
+		}
+		switch x := v.(type) {
+		case *ssa.Phi:
+			for _, e := range x.Edges {
+				rec(e, d+1)
+			}
+		case *ssa.UnOp:
+			if x.Op == token.MUL {
+				if cell := resolveCell(x.X); cell != nil && isLocalCell(cell) {
+					for _, s := range storesTo(cell) {
+						rec(s, d+1)
+					}
+					return
+				}
+			}
+			rec(x.X, d+1)
+		case *ssa.BinOp:
+			rec(x.X, d+1)
+			rec(x.Y, d+1)
+		case *ssa.Call:
+			for _, a := range Args(x.Common()) {
+				rec(a, d+1)
+			}
+		case *ssa.Extract:
+			rec(x.Tuple, d+1)
+		case *ssa.Next:
+			rec(x.Iter, d+1)
+		case *ssa.Range:
+			rec(x.X, d+1)
+		case *ssa.IndexAddr:
+			rec(x.X, d+1)
+		case *ssa.Index:
+			rec(x.X, d+1)
+		case *ssa.Lookup:
+			rec(x.X, d+1)
+		case *ssa.Slice:
+			rec(x.X, d+1)
+		case *ssa.FieldAddr:
+			rec(x.X, d+1)
+		case *ssa.Field:
+			rec(x.X, d+1)
+		case *ssa.ChangeType:
+			rec(x.X, d+1)
+		case *ssa.Convert:
+			rec(x.X, d+1)
+		case *ssa.MakeInterface:
+			rec(x.X, d+1)
+		case *ssa.ChangeInterface:
+			rec(x.X, d+1)
+		case *ssa.TypeAssert:
+			rec(x.X, d+1)
+		}
+	}
+	rec(v, 0)
+}
+
+// DerivesFrom reports whether v data-depends on a value satisfying isSource,
+// and whether some dependence path reaches a source without passing a value
+// satisfying isSanitizer.
+func DerivesFrom(v ssa.Value, isSource, isSanitizer func(ssa.Value) bool) (reaches, unsanitized bool) {
+	// first: any path
+	SliceBack(v, func(x ssa.Value) bool {
+		if isSource(x) {
+			reaches = true
+			return false
+		}
+		return true
+	})
+	if !reaches {
+		return false, false
+	}
+	SliceBack(v, func(x ssa.Value) bool {
+		if isSanitizer(x) {
+			return false
+		}
+		if isSource(x) {
+			unsanitized = true
+			return false
+		}
+		return true
+	})
+	return
+}
